@@ -130,7 +130,7 @@ OBLIGATIONS = {"history_restore": history_restore}
 def items(tier: str, seed: int) -> List[Dict[str, Any]]:
     out: List[Dict[str, Any]] = []
     quick = tier == "quick"
-    cur = ["CUR4", "CUR5", "CUR9", "CUR12", "CUR13", "CUR14", "CUR16"]
+    cur = ["CUR4", "CUR5", "CUR9", "CUR12", "CUR13", "CUR14", "CUR16", "CUR17"]
     fam = [(sid, spec) for sid, spec in skeletons.gen(5, 3, limit=4000, seed=seed + 3) if skeletons._count(spec, "h") >= 1]
     fam = fam[: (40 if quick else 300)]
     for sid in cur:
